@@ -98,9 +98,17 @@ def build(P):
     tpg, tpd = count_fn("tp_before")
     fpg, fpd = count_fn("fp_before")
     swg, swd = count_fn("switch_before")
+    # the matching score a TP contributes (MOTP's numerator): that of the PREVIOUS result when the pairing continues (the first previous TP that shares both tracks),
+    # its own otherwise — in the matching mode of this CLEAR
+    from pyvc.lemmas import running_total, int_fn
+    fhg = int_fn("first_hit", 1)
+    fh_def = ("first_hit.def", f"forall(k, 0, len({CUR}), implies(exists(j, 0, len({PREV}), {first('k', 'j')}), 0 <= first_hit(k) and first_hit(k) < len({PREV}) and {first('k', 'first_hit(k)')}))")
+    mscore = lambda r: f"uf_real('match_score', {r}, self._matching_mode)"
+    score_term = lambda k: f"(({mscore(prv(f'first_hit({k})'))} if ({SAME(k)}) else ({mscore(cur(k))} if {now(k)} else 0.0)) if {considered(k)} else 0.0)"
+    scg, scd = running_total("score_before", real=True)
     outer = E("tp_is_number_of_tp_so_far", "tp == tp_before(i)", "fp_is_number_of_fp_so_far", "fp == fp_before(i)",
-              "switches_so_far", "num_id_switch == switch_before(i)")
-    inner = E("outer_accumulators_unchanged", "tp == tp_before(i) and fp == fp_before(i) and num_id_switch == switch_before(i)",
+              "switches_so_far", "num_id_switch == switch_before(i)", "matching_score_of_the_tps_so_far", "tp_matching_score == score_before(i)")
+    inner = E("outer_accumulators_unchanged", "tp == tp_before(i) and fp == fp_before(i) and num_id_switch == switch_before(i) and tp_matching_score == score_before(i)",
               "current_result_is_considered", f"0 <= i and i < len({CUR}) and cur_obj_result is {cur('i')} and {considered('i')} and "
                                               f"(matching_threshold_ is not None) and matching_threshold_ == {thr_val(cur('i'))}",
               "no_hit_among_previous_results_seen", f"forall(m, 0, j, not {hit('i', 'm')})",
@@ -124,12 +132,13 @@ def build(P):
                  params={"self": mk, CUR: RT, PREV: RT},
                  locals={"tp": TReal(), "fp": TReal(), "num_id_switch": TInt(), "tp_matching_score": TReal(), "is_same_match": TBool(), "is_id_switched": TBool(),
                          "is_tp_prev": TBool(), "is_tp_cur": TBool(), "matching_threshold_": Opt(TReal())},
-                 ghosts={"tp_before": tpg, "fp_before": fpg, "switch_before": swg, "hit": hitg, "sw": swpg},
-                 defs=hitd(hit_x, n, f"len({PREV})") + swpd(sw_x, n, f"len({PREV})") + tpd(is_tp, n) + fpd(is_fp, n) + swd(is_sw, n),
+                 ghosts={"tp_before": tpg, "fp_before": fpg, "switch_before": swg, "hit": hitg, "sw": swpg, "first_hit": fhg, "score_before": scg},
+                 defs=hitd(hit_x, n, f"len({PREV})") + swpd(sw_x, n, f"len({PREV})") + tpd(is_tp, n) + fpd(is_fp, n) + swd(is_sw, n) + [fh_def] + scd(score_term, n),
                  requires=E("correct_results_are_paired", f"forall(k, 0, {n}, implies({now('k')}, {cur('k')}.ground_truth_object is not None))"),
                  loops={1: LoopSpec(index="i", invariants=outer), 2: LoopSpec(index="j", invariants=inner)},
                  ensures=E("every_considered_result_is_exactly_one_of_tp_fp", f"result[0] == tp_before({n}) and result[1] == fp_before({n})",
-                           "id_switches_counted_once_per_tp_whose_pairing_changed", f"result[2] == switch_before({n})")),
+                           "id_switches_counted_once_per_tp_whose_pairing_changed", f"result[2] == switch_before({n})",
+                           "matching_score_of_a_tp_is_that_of_the_continued_pairing_or_its_own", f"result[3] == score_before({n})")),
              extra_contracts={idx.lookup("common.threshold:get_label_threshold").fq: named_thr,
                               idx.lookup(f"{OR}:DynamicObjectWithPerceptionResult.is_result_correct").fq: named_correct,
                               idx.lookup(f"{OR}:DynamicObjectWithPerceptionResult.get_matching").fq: named_matching,
